@@ -221,6 +221,14 @@ SatData(st, env, c) ==
                                ELSE QOk(UNION {AnnData(st, x) : x \in AnnsOnRange(st, it.a, it.b, it.c)})
          [] OTHER -> QFail
 
+\* C10: data search equals a scan.  a = [set (id or ""), key (id or ""), op, v]; answer [ok, items: seq of <<set, data>>]
+FindDataExpected(st, a) ==
+    LET s == IF a.set = "" THEN 0 ELSE ResolveSet(st, ById(a.set))
+        k == IF a.key = "" \/ s = 0 THEN 0 ELSE ResolveKey(st.sets[s], ById(a.key))
+    IN IF (a.set # "" /\ s = 0) \/ (a.key # "" /\ k = 0) THEN {}
+       ELSE {p \in LiveData(st) : (s = 0 \/ p[1] = s) /\ (k = 0 \/ DataKeyOf(st, p) = k) /\ TestValue(DataValOf(st, p), a.op, a.v)}
+FindDataOK(st, r) == r.outcome = "ok" /\ NoDup(r.api.items) /\ Range(r.api.items) = FindDataExpected(st, r.a)
+
 ItemsOf(rt, S) == IF rt = "ANNOTATION" THEN {AnnItem(x) : x \in S} ELSE {DataItem(p[1], p[2]) : p \in S}
 AllOf(st, rt) == IF rt = "ANNOTATION" THEN LiveAnns(st) ELSE LiveData(st)
 
